@@ -7,11 +7,14 @@ package promql
 // the grid the offsets selected by limit_ratio(r, v) and by limit_ratio(r - 1, v).
 //
 // Observation points: (A) the exported HashRatioSampler.AddRatioSampleWithOffset, (B) real
-// limit_ratio queries (instant, range, grouped) on a real engine over a real TSDB; series whose
-// model offset is a cell interior get real label sets whose real hash falls into that cell.
-// Strict checks, on the real answers: the two selections are disjoint, their union is the input,
-// raising r never deselects, the selection is the same at every step (labels only); and each
-// selection equals the model's prediction.
+// limit_ratio queries on a real engine over a real TSDB - as a range query over NSteps steps, as
+// instant queries at every step, inside a subquery and grouped - over series that are present
+// throughout, start late, are stale at the first step, have a gap, or exist only at the last step.
+// Series whose model offset is a cell interior get real label sets whose real hash falls into that
+// cell. Strict checks on the real answers, at EVERY step: the two selections are disjoint, their
+// union is the input vector at that step, raising r never deselects, the selection of a series at
+// a step of the range query / subquery equals its selection in an instant query at that step
+// (labels only); and each selection equals the model's prediction.
 
 import (
 	"context"
@@ -24,15 +27,29 @@ import (
 
 	"github.com/prometheus/prometheus/internal/verifh"
 	"github.com/prometheus/prometheus/model/labels"
+	"github.com/prometheus/prometheus/model/value"
 	"github.com/prometheus/prometheus/promql/parser"
 	"github.com/prometheus/prometheus/util/teststorage"
 )
 
 type c34Case struct {
-	Vec    []int   `json:"vec"`
-	Ratios []int   `json:"ratios"`
-	Pos    [][]int `json:"pos"`
-	Neg    [][]int `json:"neg"`
+	Vec    []int     `json:"vec"`  // sampling offsets of the series (grid 0..40)
+	Pat    []string  `json:"pat"`  // presence pattern of each series
+	Pres   [][]int   `json:"pres"` // steps (1..NSteps) at which each series has a sample
+	NSteps int       `json:"nsteps"`
+	Ratios []int     `json:"ratios"`
+	Pos    [][][]int `json:"pos"` // [ratio][step-1] -> offsets selected by limit_ratio(r, v)
+	Neg    [][][]int `json:"neg"` // [ratio][step-1] -> offsets selected by limit_ratio(r-1, v)
+}
+
+// anyStep reports whether u is selected at some step.
+func c34Any(sel [][]int, u int) bool {
+	for _, s := range sel {
+		if c34In(s, u) {
+			return true
+		}
+	}
+	return false
 }
 
 const c34Scale = 40
@@ -143,7 +160,7 @@ func TestVerifC34LimitRatio(t *testing.T) {
 				gotPos := real.AddRatioSampleWithOffset(rf, of)
 				gotNeg := real.AddRatioSampleWithOffset(rf-1, of)
 				apiCalls += 2
-				wantPos, wantNeg := c34In(cs.Pos[ri], u), c34In(cs.Neg[ri], u)
+				wantPos, wantNeg := c34Any(cs.Pos[ri], u), c34Any(cs.Neg[ri], u)
 				info := map[string]any{"ratio": rf, "complement": rf - 1, "offset": of, "grid_ratio": r, "grid_offset": u}
 				if gotPos != wantPos {
 					viol(c34Sig(r, u, gotNeg, "api-positive"), fmt.Sprintf("AddRatioSampleWithOffset(%v, %v) = %v, model says %v", rf, of, gotPos, wantPos), info)
@@ -171,20 +188,33 @@ func TestVerifC34LimitRatio(t *testing.T) {
 	ng := NewEngine(EngineOpts{MaxSamples: 1000000, Timeout: 100 * time.Second, EnableAtModifier: true, EnableNegativeOffset: true,
 		LookbackDelta: 5 * time.Minute, Parser: parser.NewParser(parser.Options{EnableExperimentalFunctions: true})})
 	defer ng.Close()
+	const stepMs = int64(10000)
+	opts := NewPrometheusQueryOpts(false, 5*time.Second) // lookback shorter than the step: a missing sample is a gap
+	stale := math.Float64frombits(value.StaleNaN)
 
-	maxQ := 60
+	maxQ := 40
 	if !verifh.Quick() {
-		maxQ = 400
+		maxQ = 300
 	}
-	queries, vectors := 0, 0
+	queries, vectors, lateVectors := 0, 0, 0
 	for ci, cs := range cases {
-		if len(cs.Vec) < 2 || (vectors >= maxQ && !c34AllCells(cs.Vec)) {
+		if len(cs.Vec) < 2 {
 			continue
 		}
-		// all vectors made of cell interiors (real hashes, real sampler), and a spread of the others
+		patterned := false
+		for _, p := range cs.Pat {
+			if p != "all" {
+				patterned = true
+			}
+		}
+		// all vectors made of cell interiors (real hashes, real sampler), every vector with a series that is not
+		// present throughout, and a spread of the others
 		allCells := c34AllCells(cs.Vec)
-		if !allCells && (ci+int(verifh.Seed()))%(len(cases)/maxQ+1) != 0 {
+		if !allCells && !patterned && (vectors >= maxQ || (ci+int(verifh.Seed()))%(len(cases)/maxQ+1) != 0) {
 			continue
+		}
+		if patterned && verifh.Quick() && (ci+int(verifh.Seed()))%2 != 0 {
+			continue // quick tier: every second patterned vector
 		}
 		if allCells {
 			ratiosampler = old // the unmodified HashRatioSampler.AddRatioSample path
@@ -192,6 +222,10 @@ func TestVerifC34LimitRatio(t *testing.T) {
 			ratiosampler = samp
 		}
 		vectors++
+		if patterned {
+			lateVectors++
+		}
+		n := cs.NSteps
 		cid := strconv.Itoa(ci)
 		app := st.Appender(context.Background())
 		names := map[int]string{}
@@ -201,13 +235,13 @@ func TestVerifC34LimitRatio(t *testing.T) {
 			if u%4 == 2 {
 				// search a real label set whose real hash offset is inside the cell
 				lo, hi := float64(u/4)/10+0.01, float64(u/4)/10+0.09
-				for n := 0; ; n++ {
-					name = fmt.Sprintf("cell%d-%d", u, n)
+				for k := 0; ; k++ {
+					name = fmt.Sprintf("cell%d-%d", u, k)
 					l := labels.FromStrings("__name__", "m", "c", cid, "g", g, "s", name)
 					if o := real.SampleOffset(&l); o > lo && o < hi {
 						break
 					}
-					if n > 100000 {
+					if k > 100000 {
 						verifh.Infra("cannot find a label set in the offset cell")
 						t.Fatal("cell search")
 					}
@@ -218,8 +252,17 @@ func TestVerifC34LimitRatio(t *testing.T) {
 			}
 			names[u] = name
 			l := labels.FromStrings("__name__", "m", "c", cid, "g", g, "s", name)
-			for step := 0; step < 3; step++ {
-				if _, err := app.Append(0, l, int64(step)*10000, float64(100*step+i)); err != nil {
+			for step := 1; step <= n; step++ {
+				ts := int64(step-1) * stepMs
+				switch {
+				case c34In(cs.Pres[i], step):
+					_, err = app.Append(0, l, ts, float64(100*step+i))
+				case cs.Pat[i] == "stale1" || (cs.Pat[i] == "gap" && step > 1):
+					_, err = app.Append(0, l, ts, stale) // an explicit staleness marker
+				default:
+					continue // no sample at all
+				}
+				if err != nil {
 					t.Fatal(err)
 				}
 			}
@@ -228,113 +271,150 @@ func TestVerifC34LimitRatio(t *testing.T) {
 			t.Fatal(err)
 		}
 		back := map[string]int{}
-		for u, n := range names {
-			back[n] = u
+		for u, nm := range names {
+			back[nm] = u
 		}
-		// run one query form, return the selected offsets per step
-		run := func(q string, rng bool) ([][]int, error) {
+		end := time.UnixMilli(int64(n-1) * stepMs)
+		// run returns the offsets of the series in the result, per step (index step-1)
+		run := func(q string, mode string, at int) ([][]int, error) {
 			queries++
-			var res *Result
-			if rng {
-				qry, err := ng.NewRangeQuery(context.Background(), st, nil, q, time.UnixMilli(0), time.UnixMilli(20000), 10*time.Second)
-				if err != nil {
-					return nil, err
-				}
-				defer qry.Close()
-				res = qry.Exec(context.Background())
-			} else {
-				qry, err := ng.NewInstantQuery(context.Background(), st, nil, q, time.UnixMilli(20000))
-				if err != nil {
-					return nil, err
-				}
-				defer qry.Close()
-				res = qry.Exec(context.Background())
+			var qry Query
+			var err error
+			switch mode {
+			case "range":
+				qry, err = ng.NewRangeQuery(context.Background(), st, opts, q, time.UnixMilli(0), end, time.Duration(stepMs)*time.Millisecond)
+			case "instant":
+				qry, err = ng.NewInstantQuery(context.Background(), st, opts, q, time.UnixMilli(int64(at-1)*stepMs))
+			case "subquery": // evaluated once, at the end; the subquery covers every step
+				qry, err = ng.NewInstantQuery(context.Background(), st, opts, fmt.Sprintf("(%s)[%dms:%dms]", q, int64(n-1)*stepMs+stepMs/2, stepMs), end)
 			}
+			if err != nil {
+				return nil, err
+			}
+			defer qry.Close()
+			res := qry.Exec(context.Background())
 			if res.Err != nil {
 				return nil, res.Err
 			}
+			steps := make([][]int, n)
 			switch v := res.Value.(type) {
 			case Vector:
-				var sel []int
 				for _, s := range v {
-					sel = append(sel, back[s.Metric.Get("s")])
+					steps[at-1] = append(steps[at-1], back[s.Metric.Get("s")])
 				}
-				sort.Ints(sel)
-				return [][]int{sel}, nil
 			case Matrix:
-				steps := make([][]int, 3)
 				for _, s := range v {
 					for _, p := range s.Floats {
-						k := int(p.T / 10000)
-						steps[k] = append(steps[k], back[s.Metric.Get("s")])
+						steps[int(p.T/stepMs)] = append(steps[int(p.T/stepMs)], back[s.Metric.Get("s")])
 					}
 				}
-				for k := range steps {
-					sort.Ints(steps[k])
-				}
-				return steps, nil
+			default:
+				return nil, fmt.Errorf("unexpected result type %T", res.Value)
 			}
-			return nil, fmt.Errorf("unexpected result type %T", res.Value)
+			for k := range steps {
+				sort.Ints(steps[k])
+			}
+			return steps, nil
 		}
-		var prevPos []int
+		sel := fmt.Sprintf(`m{c=%q}`, cid)
+		input, err := run(sel, "range", 0)
+		if err != nil {
+			verifh.Infra("input query failed: " + err.Error())
+			t.Fatal(err)
+		}
+		for k := 0; k < n; k++ {
+			var want []int
+			for i, u := range cs.Vec {
+				if c34In(cs.Pres[i], k+1) {
+					want = append(want, u)
+				}
+			}
+			if c34Set(want) != c34Set(input[k]) {
+				verifh.Infra(fmt.Sprintf("harness: input vector at step %d is %v, the model says %v (patterns %v)", k+1, input[k], want, cs.Pat))
+				t.Fatal("input vector")
+			}
+		}
+		prevPos := make([][]int, n)
 		for ri, r := range cs.Ratios {
 			rf := c34Ratio(r)
-			forms := []struct {
-				q   func(float64) string
-				rng bool
-			}{
-				{func(x float64) string {
-					return fmt.Sprintf(`limit_ratio(%s, m{c=%q})`, strconv.FormatFloat(x, 'g', -1, 64), cid)
-				}, false},
-				{func(x float64) string {
-					return fmt.Sprintf(`limit_ratio(%s, m{c=%q})`, strconv.FormatFloat(x, 'g', -1, 64), cid)
-				}, true},
-				{func(x float64) string {
-					return fmt.Sprintf(`limit_ratio by (g) (%s, m{c=%q})`, strconv.FormatFloat(x, 'g', -1, 64), cid)
-				}, false},
+			lr := func(x float64, by string) string {
+				return fmt.Sprintf(`limit_ratio%s(%s, %s)`, by, strconv.FormatFloat(x, 'g', -1, 64), sel)
 			}
-			for fi, f := range forms {
-				info := map[string]any{"vector_offsets": cs.Vec, "ratio": rf, "complement": rf - 1, "query": f.q(rf), "complement_query": f.q(rf - 1), "range": f.rng}
-				pos, err1 := run(f.q(rf), f.rng)
-				neg, err2 := run(f.q(rf-1), f.rng)
-				if err1 != nil || err2 != nil {
-					viol("query-error", fmt.Sprintf("%s / %s: %v / %v", f.q(rf), f.q(rf-1), err1, err2), info)
-					continue
+			info := map[string]any{"vector_offsets": cs.Vec, "patterns": cs.Pat, "ratio": rf, "complement": rf - 1, "query": lr(rf, ""), "complement_query": lr(rf-1, "")}
+			// the reference observation: instant queries at every step
+			instPos, instNeg := make([][]int, n), make([][]int, n)
+			bad := false
+			for k := 1; k <= n; k++ {
+				p, e1 := run(lr(rf, ""), "instant", k)
+				ng2, e2 := run(lr(rf-1, ""), "instant", k)
+				if e1 != nil || e2 != nil {
+					viol("query-error", fmt.Sprintf("%s / %s at step %d: %v / %v", lr(rf, ""), lr(rf-1, ""), k, e1, e2), info)
+					bad = true
+					break
 				}
-				for k := range pos {
-					if c34Set(pos[k]) != c34Set(pos[0]) || c34Set(neg[k]) != c34Set(neg[0]) {
-						viol("labels-only", fmt.Sprintf("%s selects %v at one step and %v at another", f.q(rf), pos[0], pos[k]), info)
+				instPos[k-1], instNeg[k-1] = p[k-1], ng2[k-1]
+			}
+			if bad {
+				continue
+			}
+			forms := []struct {
+				name, mode, by string
+			}{{"instant", "", ""}, {"range", "range", ""}, {"subquery", "subquery", ""}, {"grouped-range", "range", " by (g) "}}
+			for _, f := range forms {
+				pos, neg := instPos, instNeg
+				if f.mode != "" {
+					var e1, e2 error
+					pos, e1 = run(lr(rf, f.by), f.mode, 0)
+					neg, e2 = run(lr(rf-1, f.by), f.mode, 0)
+					if e1 != nil || e2 != nil {
+						viol("query-error", fmt.Sprintf("%s %s / %s: %v / %v", f.name, lr(rf, f.by), lr(rf-1, f.by), e1, e2), info)
+						continue
 					}
 				}
-				for _, u := range cs.Vec {
-					p, n := c34In(pos[0], u), c34In(neg[0], u)
-					wp, wn := c34In(cs.Pos[ri], u), c34In(cs.Neg[ri], u)
-					form := "query" + strconv.Itoa(fi)
-					if p != wp {
-						viol(c34Sig(r, u, n, form+"-positive"), fmt.Sprintf("%s selects %v, model says %v (offset %v)", f.q(rf), pos[0], cs.Pos[ri], c34Offset(u)), info)
+				for k := 0; k < n; k++ {
+					at := fmt.Sprintf("%s step %d", f.name, k+1)
+					// labels only: a step of a range query / subquery selects what the instant query at that step selects
+					if c34Set(pos[k]) != c34Set(instPos[k]) {
+						viol("step-vs-instant|"+f.name, fmt.Sprintf("%s: %s selects %v, the instant query at that step selects %v (patterns %v)", at, lr(rf, f.by), pos[k], instPos[k], cs.Pat), info)
 					}
-					if n != wn {
-						viol(c34Sig(r, u, n, form+"-complement"), fmt.Sprintf("%s selects %v, model says %v (offset %v)", f.q(rf-1), neg[0], cs.Neg[ri], c34Offset(u)), info)
+					if c34Set(neg[k]) != c34Set(instNeg[k]) {
+						viol("step-vs-instant|"+f.name, fmt.Sprintf("%s: %s selects %v, the instant query at that step selects %v (patterns %v)", at, lr(rf-1, f.by), neg[k], instNeg[k], cs.Pat), info)
 					}
-					if p && n {
-						viol(c34Sig(r, u, n, form+"-overlap"), fmt.Sprintf("series with offset %v is returned by %s and by %s", c34Offset(u), f.q(rf), f.q(rf-1)), info)
-					}
-					if !p && !n {
-						viol(c34Sig(r, u, n, form+"-gap"), fmt.Sprintf("series with offset %v is returned neither by %s nor by %s", c34Offset(u), f.q(rf), f.q(rf-1)), info)
-					}
-				}
-				if fi == 0 {
-					for _, u := range prevPos {
-						if !c34In(pos[0], u) {
-							viol("monotone", fmt.Sprintf("raising the ratio to %v deselects the series with offset %v", rf, c34Offset(u)), info)
+					for _, u := range input[k] {
+						p, ng3 := c34In(pos[k], u), c34In(neg[k], u)
+						wp, wn := c34In(cs.Pos[ri][k], u), c34In(cs.Neg[ri][k], u)
+						if p != wp {
+							viol(c34Sig(r, u, ng3, f.name+"-positive"), fmt.Sprintf("%s: %s selects %v, model says %v (offset %v)", at, lr(rf, f.by), pos[k], cs.Pos[ri][k], c34Offset(u)), info)
+						}
+						if ng3 != wn {
+							viol(c34Sig(r, u, ng3, f.name+"-complement"), fmt.Sprintf("%s: %s selects %v, model says %v (offset %v)", at, lr(rf-1, f.by), neg[k], cs.Neg[ri][k], c34Offset(u)), info)
+						}
+						if p && ng3 {
+							viol(c34Sig(r, u, ng3, f.name+"-overlap"), fmt.Sprintf("%s: series with offset %v is returned by %s and by %s", at, c34Offset(u), lr(rf, f.by), lr(rf-1, f.by)), info)
+						}
+						if !p && !ng3 {
+							viol(c34Sig(r, u, ng3, f.name+"-gap"), fmt.Sprintf("%s: series with offset %v is returned neither by %s nor by %s", at, c34Offset(u), lr(rf, f.by), lr(rf-1, f.by)), info)
 						}
 					}
-					prevPos = pos[0]
+					for _, u := range append(append([]int(nil), pos[k]...), neg[k]...) {
+						if !c34In(input[k], u) {
+							viol("not-in-input|"+f.name, fmt.Sprintf("%s: a series that is not in the input vector at that step is returned (offset %v)", at, c34Offset(u)), info)
+						}
+					}
+					if f.name == "range" {
+						for _, u := range prevPos[k] {
+							if c34In(input[k], u) && !c34In(pos[k], u) {
+								viol("monotone", fmt.Sprintf("%s: raising the ratio to %v deselects the series with offset %v", at, rf, c34Offset(u)), info)
+							}
+						}
+						prevPos[k] = pos[k]
+					}
 				}
 			}
 		}
 	}
-	verifh.Stat(map[string]any{"api_calls": apiCalls, "ratio_offset_pairs": len(seen), "vectors_queried": vectors, "queries": queries})
+	verifh.Stat(map[string]any{"api_calls": apiCalls, "ratio_offset_pairs": len(seen), "vectors_queried": vectors,
+		"vectors_with_late_or_stale_series": lateVectors, "queries": queries})
 	if len(cases) > 0 {
 		verifh.Sample(cases[len(cases)/2])
 	}
